@@ -269,6 +269,18 @@ def _central_differences(fnode, h, x, d):
             return res(defs[e.id][0], depth + 1)
         return e
 
+    def deep(e, depth=0):
+        """like res, inside an expression: every single-definition local in it replaced by its definition"""
+        import copy as _copy
+
+        class T(ast.NodeTransformer):
+            def visit_Name(s_, n):
+                if isinstance(n.ctx, ast.Load) and n.id not in (h, x, d) and len(defs.get(n.id, [])) == 1 and depth < 4 \
+                        and not isinstance(defs[n.id][0], (ast.Lambda,)):
+                    return deep(defs[n.id][0], depth + 1)
+                return n
+        return T().visit(_copy.deepcopy(e))
+
     def is_copy_of_x(e):
         e = res(e)
         t = norm_text(e)
@@ -289,12 +301,13 @@ def _central_differences(fnode, h, x, d):
             continue
         n_q += 1
         D = norm_text(res(q.right))
+        D_deep = norm_text(deep(q.right))
 
         def twice(D_, s_):
             return D_ in ('2*%s' % s_, '%s*2' % s_, '2.0*%s' % s_, '%s*2.0' % s_, '%s+%s' % (s_, s_), '(2*%s)' % s_, '2*(%s)' % s_, '(%s)*2' % s_,
                           '2.0*(%s)' % s_, '(%s)*2.0' % s_)
         disp = set()            # displacement(s) the element-store probes are moved by (resolved texts)
-        d_problem = None if twice(D, d) else 'the difference of the two probes is divided by %s, not by twice the step %s' % (D, d)
+        d_problem = None if (twice(D, d) or twice(D_deep, d)) else 'the difference of the two probes is divided by %s, not by twice the step %s' % (D, d)
         P, M = a.args[0], b.args[0]
         # probes that are parameters of a local helper: what the helper is called with
         encl = next((f_ for f_ in ast.walk(fi.node) if isinstance(f_, (ast.FunctionDef, ast.Lambda)) and f_ is not fi.node
@@ -318,12 +331,12 @@ def _central_differences(fnode, h, x, d):
                           tgt, val = n.targets[0], n.value
                           ok = isinstance(val, ast.BinOp) and isinstance(val.op, sign) and norm_text(val.left) == norm_text(tgt)
                           if ok:
-                              disp.add(norm_text(res(val.right)))
+                              disp.add(norm_text(deep(val.right)))
                       elif isinstance(n, ast.AugAssign) and isinstance(n.target, ast.Subscript) and norm_text(n.target.value) == nm:
                           tgt = n.target
                           ok = isinstance(n.op, sign)
                           if ok:
-                              disp.add(norm_text(res(n.value)))
+                              disp.add(norm_text(deep(n.value)))
                       else:
                           continue
                       if not ok:
@@ -369,7 +382,7 @@ def _central_differences(fnode, h, x, d):
                 problems.append((q.lineno, 'the two probes are displaced by different amounts (%s): the quotient is not a central difference' % ' / '.join(sorted(disp))[:120]))
             else:
                 s_ = next(iter(disp))
-                if not twice(D, s_):
+                if not (twice(D, s_) or twice(D_deep, s_)):
                     problems.append((q.lineno, 'the probes are displaced by %s but their difference is divided by %s, not by twice that displacement: the column of every '
                                                'coordinate for which the two differ is scaled' % (s_[:60], D)))
         elif d_problem:
@@ -615,6 +628,45 @@ def check(model, rep):
                 out[k] = (diff[k] / length) * step
             return tm(a.TAA + out)
         """], 'closeLinearGap does not advance by exactly delta along the unit direction to the goal')
+    spec_ob(F(FSR, 'closeArcGap'), 'origin @ TAAtoTM((goal-origin)/|goal-origin| * delta)', ["""
+        def closeArcGap(a, b, step):
+            diff = b - a
+            out = np.zeros((6, 1))
+            length = mr.Norm6(diff[0:6])
+            if length == 0:
+                return b
+            for k in range(6):
+                out[k] = (diff[k] / length) * step
+            return a @ TAAtoTM(out)
+        """, """
+        def closeArcGap(a, b, step):
+            diff = b - a
+            length = mr.Norm6(diff[0:6])
+            if length == 0:
+                return b
+            return a @ TAAtoTM((diff[0:6] / length) * step)
+        """, """
+        def closeArcGap(a, b, step):
+            diff = (b - a)[0:6]
+            length = mr.Norm6(diff)
+            if length == 0:
+                return b
+            return a @ TAAtoTM((diff / length) * step)
+        """, """
+        def closeArcGap(a, b, step):
+            diff = b - a
+            length = mr.Norm6(diff[0:6])
+            if length == 0:
+                return b
+            return a @ TAAtoTM((diff / length) * step)
+        """, """
+        def closeArcGap(a, b, step):
+            diff = b - a
+            length = mr.Norm6(diff[0:6])
+            if length == 0:
+                return b
+            return a @ tm((diff[0:6] / length) * step)
+        """], 'closeArcGap does not advance by exactly delta: the local step is not the unit six-vector of the gap times delta')
     MID = """
         def tmInterpMidpoint(a, b):
             out = np.zeros((6, 1))
